@@ -69,7 +69,7 @@ REAL = ['asyncssh stream.py (SSHReader/SSHWriter/SSHStreamSession), '
         'process.py (SSHClientProcess/SSHServerProcess, redirection), '
         'channel, connection of both endpoints']
 STUB = ['event loop + clock', 'TCP', 'executor', 'OS randomness']
-PROBES = ['closed_while_source_feeds', 'server_hung_up_at_once', 'collect_output_polled', 'signal_in_stream', 'mode_editor', 'soft_eof_ended_a_call', 'redirect_target_failed', 'server_side_redirect', 'redirect_switched', 'redirect_concat', 'read_cancelled', 'async_iteration', 'mode_reader', 'mode_run', 'mode_redirect', 'text_mode',
+PROBES = ['held_back_by_redirect_target', 'closed_while_source_feeds', 'server_hung_up_at_once', 'collect_output_polled', 'signal_in_stream', 'mode_editor', 'soft_eof_ended_a_call', 'redirect_target_failed', 'server_side_redirect', 'redirect_switched', 'redirect_concat', 'read_cancelled', 'async_iteration', 'mode_reader', 'mode_run', 'mode_redirect', 'text_mode',
           'tiny_packets', 'readuntil_multi', 'readuntil_regex',
           'incomplete_read_at_eof', 'limit_overrun', 'exit_signal',
           'exit_status', 'redirect_process', 'redirect_file',
@@ -203,6 +203,10 @@ def gen_plan(rng):
         # ... without waiting for the channel to close: output, exit status,
         # CLOSE and DISCONNECT leave in one burst
         'hangup_at_once': rng.chance(50),
+        # reader mode: stderr goes to a slow (asynchronous) file whose queue
+        # fills up and holds the channel back, while stdout is read with
+        # the drawn calls
+        'err_slow_file': rng.choice([0, 0, 0, 0, 0, 1, 3, 8]),
         # the command forwards two local sources instead of writing itself
         'srv_redirect': mode in ('reader', 'run') and rng.chance(15),
         'collect_poll': collect_poll,
@@ -854,6 +858,37 @@ def run_plan(plan, sched_seed=None, sched_replay=None):
                 sim.probes['collect_output_polled'] += 1
                 await w
                 res['result'] = (proc.exit_status, proc.exit_signal)
+            elif mode == 'reader' and plan.get('err_slow_file'):
+                class SlowFile:
+                    def __init__(self):
+                        self.written = []
+                        self.closed = False
+                        self.proc = None
+
+                    async def write(self, data):
+                        if self.proc is not None and \
+                                self.proc._paused_write_streams:
+                            sim.probes['held_back_by_redirect_target'] += 1
+
+                        for _ in range(plan['err_slow_file']):
+                            await sim.pause('slow-file')
+
+                        self.written.append(data)
+
+                    async def close(self):
+                        self.closed = True
+
+                sf = SlowFile()
+                proc = await conn.create_process('cmd', stderr=sf, **kw)
+                sf.proc = proc
+                w = sim.track('cli-stdin', write_stdin(proc))
+                res['calls'] = await sim.track('cli-out', run_program(
+                    world, 'client.stdout', proc.stdout, plan['prog_out'],
+                    RefReader(s_out, text, limit, 0), None))
+                await w
+                await proc.wait()
+                res['result'] = (proc.exit_status, proc.exit_signal)
+                res['slow_file'] = sf
             elif mode == 'reader':
                 proc = await conn.create_process('cmd', **kw)
                 w = sim.track('cli-stdin', write_stdin(proc))
@@ -1279,6 +1314,19 @@ def run_plan(plan, sched_seed=None, sched_replay=None):
                            'collect_output()')
             elif mode == 'reader' and res['result']:
                 check_exit(res['result'][0], res['result'][1], 'wait()')
+                sf = res.get('slow_file')
+
+                if sf is not None:
+                    want = s_err.encode('utf-8') if text else s_err
+                    got = b''.join(sf.written)
+
+                    if got != want or not sf.closed:
+                        world.violation(
+                            'redirect-mismatch', 'stderr redirected to a '
+                            'slow async file while stdout is read: %d bytes '
+                            'written (closed: %s), %d sent' %
+                            (len(got), sf.closed, len(want)),
+                            sig='slow_file')
             elif mode == 'redirect':
                 target = plan['target']
 
